@@ -471,6 +471,8 @@ pub fn c09(a: &Args) -> (Stats, String) {
     let (extra, stride) = if a.thorough { (512, 1) } else { (16, 1) };
     fams.push(("CHAIN(3) f64 runs of 4 consecutive floats: exact, below-mid, mid, above-mid", fam::chains_floats(F64, 4, extra, a.seed, stride)));
     fams.push(("CHAIN(3) f32 runs", fam::chains_floats(F32, 4, extra, a.seed, 1)));
+    fams.push(("CHAIN(3b) f64 rich runs: renderings and 15..20-digit truncations of every midpoint, sorted exactly", fam::chains_floats_rich(F64, 4, 1)));
+    fams.push(("CHAIN(3b) f32 rich runs", fam::chains_floats_rich(F32, 4, 1)));
     fams.push(("CHAIN(4) far-digit chains d=0..9 (f64)", fam::chains_far(F64)));
     fams.push(("CHAIN(4) far-digit chains d=0..9 (f32)", fam::chains_far(F32)));
     run_groups(fams, true)
